@@ -233,6 +233,8 @@ pub struct Hk {
     pub api_depth: u32,
     pub fault_in_event: bool,
     pub pe_calls: u32,
+    /// waits of the run so far (fault site 5: the n-th wait fails with a poller error)
+    pub wait_calls: u32,
     pub c08_cells: BTreeMap<String, u64>,
     /// fds whose registration call was made to fail (attributed to their owner afterwards)
     pub faulted_fds: Vec<i32>,
